@@ -198,7 +198,7 @@ def record_long_histories(seed, quick):
         chk = force or step % every == 0
         return {"op": op, "p": p, "s": list(s), "raised": raised, "cur": f.current_offset,
                 "out": list(f.tobytes()) if chk else [], "chk": chk}
-    for n in ((70, 130) if quick else (70, 130, 600, 1100)):
+    for n in ((70, 130) if quick else (70, 130, 300, 600)):
         for gap_at in (1, n // 2):
             for tail in (b"yyy", b"y"):
                 f = Fragments()
@@ -207,16 +207,16 @@ def record_long_histories(seed, quick):
                 tr.append(ev(f, "append", f.current_offset, tail, 0, force=True))         # "yyy" runs into the next record
                 tr.append(ev(f, "append", f.current_offset, b"", 0, force=True))
                 traces.append(tr)
-    for n in ((100, 600) if quick else (100, 600, 1000, 1500)):
+    for n in ((100, 600) if quick else (100, 600, 800)):
         f = Fragments()
         tr = [ev(f, "insert", 3 * n + 40, b"", 0, force=True), ev(f, "setcur", 0, b"", 0)]
         tr += [ev(f, "append", f.current_offset, bytes([97 + i % 7, 98]), i) for i in range(n)]
         tr.append(ev(f, "append", f.current_offset, b"", 0, force=True))
         traces.append(tr)
-    for _ in range(2 if quick else 8):
+    for _ in range(2 if quick else 6):
         f = Fragments()
         tr = []
-        for i in range(300 if quick else 900):
+        for i in range(300 if quick else 500):
             k = rnd.random()
             if k < 0.7:
                 tr.append(ev(f, "insert", rnd.randint(0, 1500), bytes(rnd.randrange(256) for _ in range(rnd.choice([0, 1, 1, 2]))), i))
